@@ -667,6 +667,7 @@ fn audit(ctx: &mut Ctx, info: &StepInfo, post_collection: bool) {
 // hooks
 
 fn h_step(info: &StepInfo) -> StepAction {
+    let _hg = crate::alloc::in_hook();
     if in_harness() {
         return StepAction::Continue;
     }
@@ -802,6 +803,7 @@ fn proceed(ctx: &mut Ctx, info: &StepInfo) -> StepAction {
 }
 
 fn h_alloc(addr: usize, kind: u8) {
+    let _hg = crate::alloc::in_hook();
     let r = CTX.try_with(|c| {
         let mut ctx = match c.try_borrow_mut() {
             Ok(c) => c,
@@ -832,6 +834,7 @@ fn h_alloc(addr: usize, kind: u8) {
 }
 
 fn h_pre_destroy(addr: usize, kind: u8) -> bool {
+    let _hg = crate::alloc::in_hook();
     CTX.try_with(|c| {
         let mut ctx = match c.try_borrow_mut() {
             Ok(c) => c,
@@ -905,10 +908,12 @@ fn h_pre_destroy(addr: usize, kind: u8) -> bool {
 }
 
 fn h_post_destroy(addr: usize, _kind: u8) -> bool {
+    let _hg = crate::alloc::in_hook();
     shadow::lock().on_post_destroy(addr)
 }
 
 fn h_access(addr: usize) {
+    let _hg = crate::alloc::in_hook();
     if in_harness() {
         return;
     }
@@ -976,6 +981,7 @@ fn h_access(addr: usize) {
 }
 
 fn h_compile() -> bool {
+    let _hg = crate::alloc::in_hook();
     if in_harness() {
         return false;
     }
@@ -1000,6 +1006,7 @@ fn h_compile() -> bool {
 }
 
 fn h_print(text: &str) -> bool {
+    let _hg = crate::alloc::in_hook();
     let _ = CTX.try_with(|c| {
         if let Ok(mut ctx) = c.try_borrow_mut() {
             if ctx.active {
@@ -1011,6 +1018,7 @@ fn h_print(text: &str) -> bool {
 }
 
 fn h_gc(ev: GcEvent, gc: &GC) {
+    let _hg = crate::alloc::in_hook();
     let _ = CTX.try_with(|c| {
         let mut ctx = match c.try_borrow_mut() {
             Ok(c) => c,
